@@ -7,8 +7,8 @@ from ..runner import run_check
 LIBS = ["manual_event_loop.cpp", "static_thread_pool.cpp", "inplace_stop_token.cpp"]
 LOOP = ["loop_wait", "loop_wait2", "stc_wait", "loop_1x2", "loop_2x1", "loop_2x2", "loop_3x1", "loop_1x3", "loop_stop_race", "loop_stop_race2", "loop_tok", "stc", "stc2"]
 AQ = ["aq_2x1", "aq_1x2", "aq_dq", "aq_eoma", "aq_2x2"]
-POOL = ["pool_1_wait", "pool_2_wait", "pool_1_wait2", "pool_1", "pool_2a", "pool_2b", "pool_2c"]
-NT = ["nt_1", "nt_2", "nt_3"]
+POOL = ["pool_1_wait", "pool_2_wait", "pool_1_wait2", "pool_1", "pool_2a", "pool_2b", "pool_2c", "pool_tokfirst"]
+NT = ["nt_1", "nt_2", "nt_3", "nt_tokfirst"]
 # configurations whose whole reachable set is (also) explored by the compiled driver
 MODEL_CONFIGS = [("eventloop", LOOP), ("atomicqueue", AQ), ("threadpool", POOL), ("newthread", NT)]
 
@@ -23,6 +23,8 @@ class ModelSweepPart:
         states = {}
         for model, cfgs in MODEL_CONFIGS:
             for c in cfgs:
+                if c.endswith("_tokfirst"):                 # same state space as pool_2b / nt_2
+                    continue
                 if tier == "quick" and c in ("pool_2c",):   # 45k states: thorough only
                     continue
                 ans = driver.ask(f"ask {model} {c} | checksafe")
@@ -140,7 +142,7 @@ def run(tier, seed, replay=None):
         ["UnifexModel.Props.C06", "UnifexModel.Props.C06_loop", "UnifexModel.Props.C06_loop2", "UnifexModel.Props.C06_queue",
          "UnifexModel.Props.C06_queue2", "UnifexModel.Props.C06_pool", "UnifexModel.Props.C06_loop3", "UnifexModel.Props.C06_newthread"],
         parts,
-        rule="every schedule (DFS preemption-bounded + random/PCT walks) of 28 scenarios on the REAL manual_event_loop, single_thread_context, "
+        rule="every schedule (DFS preemption-bounded + random/PCT walks) of 30 scenarios on the REAL manual_event_loop, single_thread_context, "
              "static_thread_pool, new_thread_context and atomic_intrusive_queue under the controlled scheduler (interposed mutex/condvar/threads); "
              "a case = one distinct observable history, non-trivial = admitted by the Lean model of the same name; plus generated nesting trees "
              "through the real trampoline_scheduler compared event-for-event with Proto/Trampoline (non-trivial = at least one deferred item)",
